@@ -10,6 +10,7 @@ import (
 	"pgregory.net/rapid"
 
 	"verif/h/am"
+	"verif/h/corpus"
 	"verif/h/gen"
 	"verif/h/hx"
 	"verif/h/llvmx"
@@ -266,4 +267,76 @@ func renameType(m *am.Module, from, to string) {
 			}
 		}
 	}
+}
+
+// TestPermutedClangCorpus: the sorted kinds of real compiler output. The single-line definitions of the
+// kinds the library sorts (type definitions, comdats, attribute groups, metadata definitions, named
+// metadata) are permuted among their own positions in the text; everything else stays where it is.
+func TestPermutedClangCorpus(t *testing.T) {
+	const test = "PermutedClangCorpus"
+	hx.Rule(test, "clang-14 output (corpus/src x flag sets; modules the parser accepts) with the single-line definitions of the sorted kinds (type definitions, comdats, attribute groups, numbered and named metadata: up to several hundred per module) permuted among their own text positions by a drawn permutation, all other lines untouched: print(parse(permuted)) must equal print(parse(original)) byte for byte and the output must list the sorted kinds in the documented order; gate: llvm-as accepts the permuted text; non-trivial = at least two definitions changed places")
+	var cases []corpus.ClangCase
+	for _, c := range corpus.ClangCases() {
+		cases = append(cases, c)
+	}
+	isSorted := func(l string) bool {
+		return reTypeDef.MatchString(l) || reComdat.MatchString(l) || reAttrGrp.MatchString(l) || reMDDef.MatchString(l) || reNamedMD.MatchString(l)
+	}
+	hx.Check(t, test, hx.N(40, 1500), func(rt *rapid.T) {
+		c := cases[rapid.IntRange(0, len(cases)-1).Draw(rt, "case")]
+		x := c.Text()
+		if x == "" || len(x) > 200<<10 {
+			hx.Discard("clang_rejects_combination_or_too_large")
+			return
+		}
+		lines := strings.Split(x, "\n")
+		var idx []int
+		for i, l := range lines {
+			if isSorted(l) {
+				idx = append(idx, i)
+			}
+		}
+		if len(idx) < 2 {
+			hx.Discard("fewer_than_two_sorted_definitions")
+			return
+		}
+		perm := rapid.Permutation(idx).Draw(rt, "perm")
+		out := append([]string{}, lines...)
+		moved := 0
+		for k, i := range idx {
+			out[i] = lines[perm[k]]
+			if perm[k] != i {
+				moved++
+			}
+		}
+		px := strings.Join(out, "\n")
+		hx.Eval(1)
+		y1, _, err1, p1 := lx.ParsePrint(x)
+		y2, _, err2, p2 := lx.ParsePrint(px)
+		if p1 != nil || err1 != nil {
+			hx.Discard("parser_does_not_accept(judged_by_C01)")
+			return
+		}
+		src := "; source: clang-14 " + c.Name() + "\n"
+		fail := func(format string, args ...any) {
+			if !llvmx.Accept(px).OK {
+				hx.Discard("violation_outside_domain(llvm_rejects_permuted_text)")
+				return
+			}
+			hx.Fail(rt, test, "ll", src+px, format, args...)
+		}
+		if p2 != nil || err2 != nil {
+			fail("the parser accepts the module but not the same module with its sorted-kind definitions permuted: %v %v", err2, p2)
+			return
+		}
+		if y1 != y2 {
+			fail("permuting type/comdat/attribute-group/metadata definitions in the text changes the printed module:\n%s", llvmx.Diff(y1, y2))
+		}
+		if v := orderViolations(y1); v != "" {
+			fail("%s", v)
+		}
+		if moved >= 2 {
+			hx.NonTrivial(fmt.Sprintf("%s/%v", c.Name(), perm[:min(len(perm), 12)]))
+		}
+	})
 }
